@@ -3,10 +3,13 @@ use crate::report::{Report, Violation};
 use serde_json::Value;
 
 pub mod c01;
+pub mod c02;
 pub mod c05;
 pub mod c06;
+pub mod c09;
 pub mod c12;
 pub mod c13;
+pub mod c15;
 pub mod c16;
 pub mod common;
 
@@ -21,10 +24,13 @@ pub fn level_of(prop: &str) -> &'static str {
 pub fn run(prop: &str, rep: &Report) {
     match prop {
         "C01" => c01::run(rep),
+        "C02" => c02::run(rep),
         "C05" => c05::run(rep),
         "C06" => c06::run(rep),
+        "C09" => c09::run(rep),
         "C12" => c12::run(rep),
         "C13" => c13::run(rep),
+        "C15" => c15::run(rep),
         "C16" => c16::run(rep),
         _ => rep.machinery_error(format!("no check for {prop}")),
     }
@@ -37,6 +43,9 @@ pub fn replay(case: &Value) -> Vec<Violation> {
         "c12_order" => c12::replay_order(),
         "reserved" => c13::replay(case),
         "c16" => c16::replay(case),
+        "narrow" => c15::replay(case),
+        "c09" => c09::replay(case),
+        "c02" | "c02_key" | "c02_control" | "c02_iss" => c02::replay(case),
         k => {
             eprintln!("replay: unknown case kind {k}");
             vec![]
